@@ -95,11 +95,11 @@ func (*SingletonBlockExpressionNode) IsStatic() bool {
 }
 
 func (*SingletonBlockExpressionNode) Class() *value.Class {
-	return value.DoExpressionNodeClass
+	return value.SingletonBlockExpressionNodeClass
 }
 
 func (*SingletonBlockExpressionNode) DirectClass() *value.Class {
-	return value.DoExpressionNodeClass
+	return value.SingletonBlockExpressionNodeClass
 }
 
 func (n *SingletonBlockExpressionNode) Inspect() string {
